@@ -230,6 +230,14 @@ _RetType_co = TypeVar(
 _CharsetResolver = Callable[[ClientResponse, bytes], str]
 
 
+def _origin_key(url: URL) -> tuple[str, str | None, int | None]:
+    # ws/wss are http/https on the wire (same default ports) and a host name
+    # is case-insensitive: neither makes a redirect cross-origin.
+    scheme = {"ws": "http", "wss": "https"}.get(url.scheme, url.scheme)
+    host = url.raw_host
+    return scheme, host and host.lower(), url.port
+
+
 # Module-level (not a closure) so it has a stable identity for the
 # ``_cached_build_client_middlewares`` cache key.
 async def _connect_and_send_request(req: ClientRequest) -> ClientResponse:
@@ -925,11 +933,7 @@ class ClientSession:
                         # An origin is scheme, host and effective port: yarl
                         # compares the netloc text, where a spelled out
                         # default port (http://host:80) makes a difference.
-                        if (url.scheme, url.raw_host, url.port) != (
-                            redirect_origin.scheme,
-                            redirect_origin.raw_host,
-                            redirect_origin.port,
-                        ):
+                        if _origin_key(url) != _origin_key(redirect_origin):
                             cookies = None
                             headers.popall(hdrs.AUTHORIZATION, None)
                             headers.popall(hdrs.COOKIE, None)
